@@ -23,6 +23,8 @@ def run(m, tier):
     from sa.report import retag
     results.append(retag(C07.r5_physical_lines(m), "C12.R9", "physical lines are newline-terminated lines only: the string reader iterates a StringIO "
                          "of the source, so spans and literals are not cut at form feed / U+2028 etc. (shared with C07.R5)"))
+    from rules import reader_interp
+    results.append(reader_interp.stream_rule(m, "C12.R10", tier))
     expl = ("Decides structural clauses of C12: the item queue discipline (who pushes/pops which end, ';' parts reversed before being "
             "pushed to the front, give-back forwarded to the active include reader, no access to another reader's queue); every "
             "look-ahead is undone (typestate of items and nodes on all paths of every reader-level matcher); the physical line counter "
